@@ -105,10 +105,16 @@ def mutants():
 
 
 def sh(cmd, cwd, timeout):
+    # own process group: on a time-out the whole tree goes (a mutant can make a test binary loop forever)
+    import signal
+    p = subprocess.Popen(cmd, cwd=cwd, env=ENV, stdout=subprocess.PIPE, stderr=subprocess.STDOUT, start_new_session=True)
     try:
-        p = subprocess.run(cmd, cwd=cwd, env=ENV, stdout=subprocess.PIPE, stderr=subprocess.STDOUT, timeout=timeout)
-        return p.returncode, p.stdout.decode(errors="replace")
+        out, _ = p.communicate(timeout=timeout)
+        return p.returncode, out.decode(errors="replace")
     except subprocess.TimeoutExpired:
+        try: os.killpg(p.pid, signal.SIGKILL)
+        except Exception: pass
+        p.wait()
         return 124, "timeout"
 
 
